@@ -1,6 +1,6 @@
 SPECIFICATION GSpec
 CONSTANTS
-  Contents = {"X", "Y", "E", "XR", "X6", "O6"}
+  Contents = {"X", "Y", "E", "XR", "X6", "O6", "V4", "R6", "O6R", "O6S"}
   EmptyContents = {"E"}
   MaxPol = 4
   MaxEv = 10
